@@ -70,10 +70,11 @@ class C01(Prop):
     lean_module = "Stgutg.Props.C01"
     gen = ["schema", "registry", "templates", "nasie", "naslayout", "nassetters", "extract", "script", "tables"]
     theorems = ["Stgutg.Props.C01." + t for t in [
-        "autn_take6", "C01_res_star", "C01_registration_protected", "C01_suci", "C01_plmn", "C01_security_capability",
+        "autn_take6", "C01_res_star", "table_authenticationResponse", "C01_authentication_response_accepted",
+        "C01_wrong_res_star_refused", "C01_registration_protected", "C01_suci", "C01_plmn", "C01_security_capability",
         "isMessage_of_shaped", "C01_ngap_initial_ue_message", "C01_ngap_uplink_nas_transport",
         "C01_ngap_initial_context_setup_response", "C01_amf_sees_built_pdu", "C01_accepted_witness",
-    ]] + ["Stgutg.Proofs.Emulator." + t for t in ["protected_step", "receiveUl_of_receive"]]
+    ]] + ["Stgutg.Proofs.Emulator." + t for t in ["protected_step", "receiveUl_of_receive", "amf_sees_built_pdu", "patchSchema_eq"]]
     domains = [Domain("convo-reg", 14, 80, tags="verif")]
     rule = ("convo-reg: whole NG Setup + registration conversations of the emulator in test mode against the scripted AMF of "
             "harness/peer (real NGAP/NAS built with free5gclib) over a SOCK_SEQPACKET socketpair: (proc) the procedures of package "
